@@ -80,7 +80,7 @@ var plans = map[string]*Plan{
 	},
 	"C06": {
 		Level:     "exploration",
-		Scenarios: []ScenPlan{{"lbaff", 12000, 200000}},
+		Scenarios: []ScenPlan{{"lbaff", 12000, 60000}},
 		QuickWallS: 120, ThoroughWallS: 1500,
 		Rule:        "Scenario lbaff: ip_hash / ip_hash_consistent, 1-6 backends, 16-64 (thorough 64-512) client identities (IPv4/IPv6 peers, X-Forwarded-For single/list/junk, X-Real-IP) issuing sequential and concurrent requests with varying paths/ports/headers across a drawn history of appends, removes, ejections and expiries (epochs); oracle: one identity -> one backend per epoch, append moves a key only to the appended backend, every choice eligible, no panic. The exhaustive 2^32 sweep of the hash step is NOT performed (pure function; DESIGN.md §4).",
 		Real:        microReal, Stub: microStub, Assumptions: commonAssumptions,
